@@ -84,7 +84,7 @@ impl HasParent<&StringName> for Class {
     fn has_parent(&self, other: &StringName, ctx: &Context, pos: Position) -> TypeResult<bool> {
         if self.name == *other || other.name.as_str() == ANY {
             return Ok(true);
-        } else if (self.name.name == TUPLE && (other.name == TUPLE || other.name == COLLECTION))
+        } else if (self.name.name == TUPLE && other.name == COLLECTION)
             || (self.name.name == *other.name && self.name.generics.len() == other.generics.len())
         {
             // Contender! check generics
